@@ -1250,6 +1250,7 @@ static void initializer2(Token **rest, Token *tok, Initializer *init) {
   }
 
   if (init->ty->kind == TY_STRUCT) {
+    init->expr = NULL;
     if (equal(tok, "{")) {
       struct_initializer1(rest, tok, init);
       return;
